@@ -139,7 +139,7 @@ def main(argv=None):
         for k, v in r.get("obligations", {}).items():
             obligations[k] = obligations.get(k, 0) + v
         for k, v in r.get("reach", {}).items():
-            reach[k] = reach.get(k, 0) + v
+            reach[k] = max(reach.get(k, 0), v) if k.startswith("max_") else reach.get(k, 0) + v
         for k, v in r.get("events", {}).items():
             events[k] = events.get(k, 0) + v
         if r.get("sample") is not None and len(samples) < 3:
